@@ -324,7 +324,7 @@ def gen(rng, tier):
         for _ in range(3000 if quick else 120000):
             cases.append(gen_dt_zone(rng))
     if not quick:
-        for _ in range(250000):
+        for _ in range(600000):
             cases.append(gen_dt_fixed(rng, 60 * rng.randrange(-1439, 1440)))
     cases.append({"k": "naive", "wall_us": 0})
     cases.append({"k": "naive", "wall_us": 978307200 * M + 5})
@@ -693,8 +693,10 @@ def oracle(c, ires, mres):
                 return "datetime %s: offset %r minutes, expected %d" % (dt.isoformat(), ires["om"], off_s // 60)
             if ires["td"] != [e, off_s]:
                 return "datetime %s does not round-trip: to_datetime gives %r" % (dt.isoformat(), ires["td"])
+            # (Python's == on aware datetimes is deliberately False across zones when one side sits in a DST
+            #  gap/fold, so the instants are compared by subtraction and the offsets separately)
             back = TSTZ.from_datetime(dt).to_datetime()
-            if back != dt or back.utcoffset() != dt.utcoffset():
+            if back - dt != D.timedelta(0) or back.utcoffset() != dt.utcoffset():
                 return "datetime %s does not round-trip" % dt.isoformat()
             if core.unhx(ires["ob"]) == b"-0000":
                 return "-0000 produced from a datetime"
